@@ -20,6 +20,7 @@ LEVEL = "exploration"
 NEEDS_RUST = True
 WORKERS = 14
 CASE_TIMEOUT = 420
+QUIESCENCE_SCOPE = "process"   # helpers are polling feeders only
 QUIESCENCE_AFTER = 60.0
 REQUIRED_OBS = ["passes", "gated_passes", "examples_checked", "process_record_passes", "overlapping_pass_groups"]
 RULE = ("datasets from generated histories (1..3 splits, 1..many shards, short last shards, nested lists, "
